@@ -435,3 +435,189 @@ fn rc_packed_roundtrip() {
     assert!(p.is_merged() == m2 && p.is_queued() == q2);
     kani::cover!(v < 0 && v2 >= 0, "sign change");
 }
+
+// ================================================================ family 3: interleavings
+// One ANALYSED real operation; at ONE of its shared (atomic) accesses -- before or after it --
+// ONE complete real operation of another logical thread runs on the same box.  Which access,
+// which side, which foreign thread and which foreign operation are symbolic.  Every operation of
+// the crate touches shared state only through SharedPacked::{load, compare_exchange}; both are
+// replaced by `env(); the same access; env()`.  CAS retry loops: unwind 4.
+pub static mut ACCESS: u8 = 0; // shared accesses performed so far by the analysed operation
+pub static mut FIRE_AT: u8 = 0; // the access (1-based) at which the foreign operation runs
+pub static mut FIRE_AFTER: bool = false; // after (true) or before (false) that access
+pub static mut FOREIGN_T: usize = 0;
+pub static mut FOREIGN_OP: u8 = 0; // 0 clone, 1 drop, 2 get_mut
+pub static mut FIRED: bool = false;
+pub static mut IN_FOREIGN: bool = false;
+pub static mut BOXP: usize = 0;
+pub static mut GH: [u32; 3] = [0; 3]; // handles not yet given up, per logical thread
+pub static mut FOREIGN_GRANTED_WITH: u32 = 0;
+
+pub struct Q(pub u8);
+impl Drop for Q {
+    fn drop(&mut self) {
+        unsafe {
+            DROPS += 1;
+            // destroyed only after every holder has given its reference up
+            kani::cover!(GH[0] + GH[1] + GH[2] != 0 && TAG == 200, "CEX:payload destroyed while another thread still holds a reference (interleaving)");
+            assert!(GH[0] + GH[1] + GH[2] == 0, "payload destroyed while another thread still holds a reference (interleaving)");
+        }
+    }
+}
+
+unsafe fn env(after: bool) {
+    if IN_FOREIGN || FIRED || ACCESS != FIRE_AT || after != FIRE_AFTER {
+        return;
+    }
+    FIRED = true;
+    IN_FOREIGN = true;
+    let saved = CUR_TID;
+    CUR_TID = FOREIGN_T;
+    let p: NonNull<RcBox<Q>> = NonNull::new_unchecked(BOXP as *mut RcBox<Q>);
+    let mut h = ManuallyDrop::new(BiasedRc::<Q>::from_inner(p));
+    if FOREIGN_OP == 0 {
+        let c = (*h).clone();
+        GH[FOREIGN_T - 1] += 1;
+        mem::forget(c);
+    } else if FOREIGN_OP == 1 {
+        GH[FOREIGN_T - 1] -= 1;
+        ManuallyDrop::drop(&mut h);
+    } else {
+        let total = GH[0] + GH[1] + GH[2];
+        if BiasedRc::get_mut(&mut *h).is_some() {
+            FOREIGN_GRANTED_WITH = total;
+        }
+    }
+    CUR_TID = saved;
+    IN_FOREIGN = false;
+}
+
+fn load_stub(this: &SharedPacked, order: Ordering) -> Packed {
+    unsafe {
+        if !IN_FOREIGN {
+            ACCESS += 1;
+        }
+        env(false);
+        let r = Packed(this.0.load(order));
+        env(true);
+        r
+    }
+}
+fn cas_stub(this: &SharedPacked, current: Packed, new: Packed, success: Ordering, failure: Ordering) -> Result<u32, u32> {
+    unsafe {
+        if !IN_FOREIGN {
+            ACCESS += 1;
+        }
+        env(false);
+        let r = this.0.compare_exchange(current.0, new.0, success, failure);
+        env(true);
+        r
+    }
+}
+
+fn build_q(g: &G) -> BiasedRc<Q> {
+    unsafe { CUR_TID = OWNER };
+    let a = BiasedRc::new(Q(7));
+    let w = a.meta();
+    w.thread_id.set(if g.owner_none { None } else { Some(ThreadId::new(NonZeroUsize::new(OWNER).unwrap())) });
+    w.biased_counter.set(g.b);
+    w.shared.0.store(Packed::new_with(g.s, g.merged, g.queued).0, Ordering::Relaxed);
+    a
+}
+
+/// common set-up: symbolic valid pre-state (small counters), acting thread t, foreign thread u != t
+/// holding a handle, foreign operation, firing point
+fn il_setup() -> (G, usize) {
+    il_setup_m(false)
+}
+/// `mask_owner_cell`: exclude the listed finding's pattern -- the owner's last biased decrement
+/// (it publishes `merged` and then clears the owner cell) with a foreign DROP right after one of
+/// its accesses
+fn il_setup_m(mask_owner_cell: bool) -> (G, usize) {
+    unsafe { TAG = kani::any() };
+    let g = any_g_s(true);
+    let t = any_tid();
+    let u = any_tid();
+    kani::assume(u != t && g.h[t - 1] >= 1 && g.h[u - 1] >= 1);
+    let fa: u8 = kani::any();
+    kani::assume(fa >= 1 && fa <= 3);
+    let fo: u8 = kani::any();
+    kani::assume(fo <= 2);
+    unsafe {
+        FIRE_AT = fa;
+        FIRE_AFTER = kani::any();
+        FOREIGN_T = u;
+        FOREIGN_OP = fo;
+        GH = g.h;
+        if mask_owner_cell {
+            kani::assume(!(t == OWNER && !g.merged && g.b == 1 && fo == 1 && FIRE_AFTER));
+        }
+    }
+    (g, t)
+}
+
+macro_rules! il_harness {
+    ($name:ident, $body:block) => {
+        #[kani::proof]
+        #[kani::unwind(4)]
+        #[kani::stub(ThreadId::current_thread, cur_tid_stub)]
+        #[kani::stub(std::rt::thread_cleanup, noop)]
+        #[kani::stub(QueueHandle::enqueue, enqueue_stub)]
+        #[kani::stub(SharedPacked::load, load_stub)]
+        #[kani::stub(SharedPacked::compare_exchange, cas_stub)]
+        fn $name() $body
+    };
+}
+
+il_harness!(rc_il_drop, { il_drop_body(false) });
+il_harness!(rc_il_drop__kf_owner_cell, { il_drop_body(true) });
+
+fn il_drop_body(mask: bool) {
+    let (g, t) = il_setup_m(mask);
+    let a = build_q(&g);
+    unsafe {
+        BOXP = a.ptr.as_ptr() as usize;
+        CUR_TID = t;
+        GH[t - 1] -= 1; // the acting thread gives its reference up
+    }
+    drop(a);
+    kani::cover!(unsafe { FIRED && FOREIGN_OP == 1 && DROPS == 1 }, "foreign drop interleaved, payload destroyed");
+    kani::cover!(unsafe { FIRED && FIRE_AFTER && FOREIGN_OP == 0 }, "foreign clone after an access");
+    assert!(unsafe { DROPS } <= 1, "destroyed at most once (interleaving)");
+    assert!(unsafe { FOREIGN_GRANTED_WITH } <= 1, "exclusive access granted to a foreign thread while other references exist (interleaving)");
+}
+
+il_harness!(rc_il_clone, {
+    let (g, t) = il_setup();
+    let a = build_q(&g);
+    unsafe {
+        BOXP = a.ptr.as_ptr() as usize;
+        CUR_TID = t;
+    }
+    let c = a.clone();
+    unsafe { GH[t - 1] += 1 };
+    kani::cover!(unsafe { FIRED && FOREIGN_OP == 1 }, "foreign drop interleaved");
+    assert!(unsafe { DROPS } == 0, "payload destroyed while the cloning thread holds references (interleaving)");
+    assert!(c.0 == 7, "contents intact (interleaving)");
+    assert!(unsafe { FOREIGN_GRANTED_WITH } <= 1, "exclusive access granted to a foreign thread while other references exist (interleaving)");
+    mem::forget(a);
+    mem::forget(c);
+});
+
+il_harness!(rc_il_get_mut, {
+    let (g, t) = il_setup();
+    let mut a = build_q(&g);
+    unsafe {
+        BOXP = a.ptr.as_ptr() as usize;
+        CUR_TID = t;
+    }
+    let granted = BiasedRc::get_mut(&mut a).is_some();
+    let total_after = unsafe { GH[0] + GH[1] + GH[2] };
+    kani::cover!(granted, "granted");
+    kani::cover!(unsafe { FIRED } && !granted, "refused with interference");
+    if granted {
+        assert!(total_after == 1, "exclusive access granted while another thread holds a reference (interleaving)");
+    }
+    assert!(unsafe { DROPS } == 0, "payload destroyed during a uniqueness test (interleaving)");
+    mem::forget(a);
+});
